@@ -14,7 +14,9 @@
    events dropped, nothing instrumented in between; plus all table invariants in every reachable state. *)
 EXTENDS Tracker
 CONSTANTS MCTypes,     \* duty types of the one slot that is explored; MCMain is the duty type under analysis
-          MCMain, MCPKs, MCErrs, MCRoots, MCN, MCIncl, MCSteps, MaxCalls
+          MCMain, MCPKs, MCErrs, MCRoots, MCN, MCIncl, MCSteps, MaxCalls,
+          PreFull      \* TRUE: prerequisite duties range over every (step, error) pair; FALSE: errors only at their last step
+                       \* (an error at an earlier step of a prerequisite is indistinguishable from getting stuck there)
 VARIABLES ncalls
 mcvars == <<vars, ncalls>>
 MCDuties == {Duty(1, t) : t \in MCTypes}
@@ -28,6 +30,8 @@ PS(s, pk, sh, root) == [step |-> s, pk |-> pk, err |-> "nil", share |-> sh, root
 AllSteps(t) == (1..EnvLast(t)) \ {VAPI}
 PK1 == CHOOSE p \in MCPKs : TRUE
 Single(t) == {<<>>} \cup {<<E1(s, e, PK1)>> : s \in AllSteps(t), e \in MCErrs}
+Pre(t) == IF PreFull THEN Single(t)
+          ELSE {<<>>} \cup {<<E1(s, "nil", PK1)>> : s \in AllSteps(t)} \cup {<<E1(EnvLast(t), e, PK1)>> : e \in MCErrs}
 Full(t) ==
   Single(t)
   \cup {<<E1(s, e1, PK1), E1(s, e2, PK1)>> : s \in AllSteps(t), e1 \in MCErrs, e2 \in MCErrs}
@@ -41,7 +45,7 @@ Full(t) ==
 TableInit == /\ conf = MCConf /\ ncalls = 0
              /\ anaAdded = {} /\ anaExp = {} /\ delAdded = {} /\ delExp = {} /\ aggSup = FALSE /\ conSup = FALSE
              /\ obs = {} /\ reports = <<>>
-             /\ \E m \in Full(MCMain) : \E f \in [MCDuties \ {Duty(1, MCMain)} -> UNION {Single(t) : t \in MCTypes \ {MCMain}}] :
+             /\ \E m \in Full(MCMain) : \E f \in [MCDuties \ {Duty(1, MCMain)} -> UNION {Pre(t) : t \in MCTypes \ {MCMain}}] :
                   events = [d \in MCDuties |-> IF d.type = MCMain THEN m ELSE f[d]]
 TableSpec == TableInit /\ [][UNCHANGED mcvars]_mcvars
 \* the observation function is total on every case and never reports a duty both ways or twice
